@@ -1,6 +1,6 @@
 ------------------------------- MODULE TraceImage -------------------------------
 (* Persistence images (C04, C11), decided on recorded transforms.  Coordinates in ticks; pixel values as Fix records.
-   case : cfg  = [b0, p0, ps, rx, ry,            pixel (i,j) = [b0+i ps, b0+(i+1) ps] x [p0+j ps, p0+(j+1) ps]   (birth, persistence)
+   case : mine ("C04" | "C11": which property's clauses are evaluated), cfg  = [b0, p0, ps, rx, ry,            pixel (i,j) = [b0+i ps, b0+(i+1) ps] x [p0+j ps, p0+(j+1) ps]   (birth, persistence)
                   kern ("uniform" | "gdiag" | "gcorr"), ka, kb  (uniform: width, height ; gdiag: standard deviations in ticks),
                   wkind ("pers" | "ramp" | "const"), wn (exponent), ramp = [low, high, start, end],
                   absdecide (1: kernel mass is decidable here: box overlap, or Phi table with all arguments on the 1/8 lattice)]
@@ -64,10 +64,11 @@ Verdict(c) ==
       NZs == TLCEval([q \in Q |-> NZ(c, q)])
       badshape == {q \in Q : c.imgs[q][3] = 0 \/ ~ShapeOK(c, q)}
   IN IF badshape # {} THEN <<"fail", "C04-image-shape-or-non-finite-pixel", Min(badshape), 0, 0>>
-     ELSE LET abs == IF c.cfg.absdecide = 0 THEN {} ELSE
+     ELSE LET abs == IF c.cfg.absdecide = 0 \/ c.mine # "C04" THEN {} ELSE
                      {<<q, p[1], p[2]>> : q \in {q \in Q : OnLattice(c, q)}, p \in Pix(c)} IN
           LET badabs == {x \in abs : ~PxClose(Px(c, x[1], x[2], x[3]), ExpectedPixel(c, x[1], x[2], x[3]))} IN
           IF badabs # {} THEN <<"fail", "C04-pixel-differs-from-weighted-kernel-mass">> \o First3(badabs)
+          ELSE IF c.mine # "C11" THEN <<"ok", "", 0, 0, 0>>
           ELSE LET eqbad == {<<a, b, 0>> : a \in Q, b \in Q} \cap {x \in Q \X Q \X {0} : x[1] < x[2] /\ NZs[x[1]] = NZs[x[2]]
                                   /\ \E p \in Pix(c) : ~PxClose(Px(c, x[1], p[1], p[2]), Px(c, x[2], p[1], p[2]))}
                    sumbad == {x \in Q \X Q \X Q : x[1] # x[2] /\ x[1] # x[3] /\ x[2] < x[3] /\ Len(NZs[x[1]]) > 0 /\ NZs[x[1]] = Canon(NZs[x[2]] \o NZs[x[3]])
